@@ -114,7 +114,10 @@ pub fn run_session(s: &Session, out: &mut dyn Write) -> usize {
         let total = buf.len() as u64 + pad;
         let mut big = vec![0u8; total as usize];
         big[..buf.len()].copy_from_slice(&buf);
+        // one pass over the buffer at 20 MB/s is allowed for, per entry point and then some
+        crate::util::set_extra_budget_ms(total / 20_000);
         let obs = huge_entry_points(&big);
+        crate::util::set_extra_budget_ms(0);
         drop(big);
         writeln!(out, "{}", json!({"sid": s.sid, "op": "Huge", "c": rl(&vec![0u8; m]), "gib": pad >> 30, "n": pad & ((1u64 << 30) - 1), "m": m, "obs": obs})).unwrap();
         n += 1;
@@ -477,7 +480,33 @@ fn random_tlv_section(rng: &mut Rng, budget: usize) -> Vec<u8> {
 /// TLV-ish tail), plus trailer.
 /// An address block of the family's size; now and then with a shape that means something to
 /// address-aware code (IPv4-mapped IPv6, equal source and destination, zeros, ones, NUL-heavy paths).
+/// An address block whose source half, destination half and ports are drawn INDEPENDENTLY from
+/// classes (all zero, all ones, a short name / small value padded with zeros, arbitrary bytes).
+pub fn halves_block(fam: u8, src: usize, dst: usize, rng: &mut Rng) -> Vec<u8> {
+    let half = match fam { 1 => 4, 2 => 16, 3 => 108, _ => 0 };
+    let mut make = |class: usize, rng: &mut Rng| -> Vec<u8> {
+        match class % 4 {
+            0 => vec![0u8; half],
+            1 => vec![0xffu8; half],
+            2 => { let mut v = vec![0u8; half]; let name = b"/run/x.sock"; let k = name.len().min(half.saturating_sub(1)); v[..k].copy_from_slice(&name[..k]); if fam != 3 { v[half - 1] = 1; } v }
+            _ => { let mut v = rng.bytes(half); for b in v.iter_mut() { if *b == 0 { *b = 0x41; } } v }
+        }
+    };
+    let mut body = make(src, rng);
+    body.extend(make(dst, rng));
+    if fam == 1 || fam == 2 {
+        let ports = [[0u8, 0], [0xff, 0xff], [0, 80], [0x80, 0x00]];
+        body.extend_from_slice(&ports[(src + dst) % 4]);
+        body.extend_from_slice(&ports[(src * 2 + dst + 1) % 4]);
+    }
+    body
+}
+
 fn address_block(fam: u8, rng: &mut Rng) -> Vec<u8> {
+    if fam != 0 && rng.chance(1, 6) {
+        let (a, b) = (rng.below(4) as usize, rng.below(4) as usize);
+        return halves_block(fam, a, b, rng);
+    }
     let n = family_size(fam);
     let mut body = distinct_body(n, rng);
     let mapped = |rng: &mut Rng| -> Vec<u8> {
@@ -525,6 +554,17 @@ fn address_block(fam: u8, rng: &mut Rng) -> Vec<u8> {
         _ => {}
     }
     body
+}
+
+/// The i-th header of the halves grid (see `halves_block`).
+pub fn halves_header(i: usize, rng: &mut Rng) -> Vec<u8> {
+    let fam = 1 + (i % 3) as u8;
+    let (src, dst) = ((i / 3) % 4, (i / 12) % 4);
+    let mut body = halves_block(fam, src, dst, rng);
+    if (i / 48) % 2 == 0 {
+        body.extend_from_slice(&[4, 0, 2, 7, 7]);
+    }
+    v2_header(0x20 | (i % 2) as u8, (fam << 4) | (i % 3) as u8, body.len() as u16, &body)
 }
 
 pub fn random_v2_good(rng: &mut Rng) -> Vec<u8> {
@@ -960,6 +1000,15 @@ pub fn generate(name: &str, count: usize, rng: &mut Rng, sink: &mut dyn FnMut(Se
                 sink(Session { sid: format!("v2good-{}", i), tag: json!({"g": "v2good"}), chunks, huge: None, consume: false });
             }
         }
+        // the grid family x class of the source half x class of the destination half (all zero, all
+        // ones, a short name / small value, arbitrary non-zero bytes), each with a small TLV tail
+        "v2halves" => {
+            for i in 0..count {
+                let bytes = halves_header(i, rng);
+                let chunks = if i % 2 == 0 { vec![bytes.clone()] } else { chunking(&bytes, rng, 4) };
+                sink(Session { sid: format!("v2halves-{}", i), tag: json!({"g": "v2halves"}), chunks, huge: None, consume: false });
+            }
+        }
         "v2corrupt" => {
             for i in 0..count {
                 let (tag, bytes) = corrupt_v2(rng);
@@ -1153,6 +1202,65 @@ pub fn generate(name: &str, count: usize, rng: &mut Rng, sink: &mut dyn FnMut(Se
                 bytes[pos] = val;
                 let chunks = if rng.chance(1, 3) { split_each(&bytes[..bytes.len().min(20)]) } else { vec![bytes.clone()] };
                 sink(Session { sid: format!("v2sig-{}", i), tag: json!({"g": "v2sig"}), chunks, huge: None, consume: false });
+            }
+        }
+        // signatures damaged in SEVERAL bytes in ways a checksum-like comparison could cancel out:
+        // every pair of positions with the same XOR delta (and with the same additive delta), the
+        // 2- and 4-byte words swapped / rotated / reversed, neighbouring bytes swapped, case
+        // changes of QUIT, the signature shifted by one byte. count is a cap (all: about 700)
+        "v2sigmulti" => {
+            let mut variants: Vec<Vec<u8>> = Vec::new();
+            let sig: Vec<u8> = ppp::v2::PROTOCOL_PREFIX.to_vec();
+            for i in 0..12usize {
+                for j in (i + 1)..12usize {
+                    for d in [0x01u8, 0x20, 0x80, 0xff, 0x0d ^ 0x0a] {
+                        let mut v = sig.clone();
+                        v[i] ^= d;
+                        v[j] ^= d;
+                        variants.push(v);
+                    }
+                    let mut v = sig.clone();
+                    v[i] = v[i].wrapping_add(1);
+                    v[j] = v[j].wrapping_sub(1);
+                    variants.push(v);
+                    let mut v = sig.clone();
+                    v.swap(i, j);
+                    if v != sig { variants.push(v); }
+                }
+            }
+            for w in [2usize, 3, 4, 6] {
+                let words: Vec<Vec<u8>> = sig.chunks(w).map(|c| c.to_vec()).collect();
+                for a in 0..words.len() {
+                    for b in (a + 1)..words.len() {
+                        let mut ws = words.clone();
+                        ws.swap(a, b);
+                        let v = ws.concat();
+                        if v != sig { variants.push(v); }
+                    }
+                }
+                let mut rot = words.clone();
+                rot.rotate_left(1);
+                variants.push(rot.concat());
+            }
+            let mut rev = sig.clone();
+            rev.reverse();
+            variants.push(rev);
+            variants.push(b"\r\n\r\n\0\r\nquit\n".to_vec());
+            variants.push(b"\r\n\r\n\0\r\nQuit\n".to_vec());
+            let mut shifted = sig[1..].to_vec();
+            shifted.push(0x21);
+            variants.push(shifted);
+            variants.sort();
+            variants.dedup();
+            let total = variants.len();
+            let take = count.min(total);
+            let step = total as f64 / take as f64;
+            let off = (rng.below(97) as f64) / 97.0 * step;
+            for i in 0..take {
+                let v = &variants[((off + i as f64 * step) as usize).min(total - 1)];
+                let mut bytes = random_v2_good(rng);
+                bytes[..12].copy_from_slice(v);
+                sink(Session { sid: format!("v2sigmulti-{}", i), tag: json!({"g": "v2sigmulti"}), chunks: vec![bytes], huge: None, consume: false });
             }
         }
         // what the crate's own builder emits for random call sequences, as parser input
